@@ -69,25 +69,18 @@ impl<'a> Frame<'a> {
 //@ subst `async fn` => `fn`
 //@ subst `R: AsyncRead + Unpin + ?Sized,` => `R: AsyncReader,`
 //@ subst `use crate::bytes::BytesReaderAsync;` => ``
-//@ subst `.await` => `` x4
-//@ substw `|e| match e { bytes::IoReadError::ImmediateFin => bytes::IoReadError::UnexpectedFin, _ => e, }` => `|e: BytesIoReadError| -> (o: BytesIoReadError) ensures o == fin_remap(e) { match e { BytesIoReadError::ImmediateFin => BytesIoReadError::UnexpectedFin, _ => e, } }` x3
-//@ subst `reader.get_varint()?;` => `reader.get_varint().map_err(|e: BytesIoReadError| -> (o: IoReadError) ensures o == IoReadError::IO(e) { io_read_error_from(e) })?;`
-//@ subst `})?)` => `}).map_err(|e: BytesIoReadError| -> (o: IoReadError) ensures o == IoReadError::IO(e) { io_read_error_from(e) })?)`
-//@ subst `})?
-//@ |                .into_inner() as usize;` => `}).map_err(|e: BytesIoReadError| -> (o: IoReadError) ensures o == IoReadError::IO(e) { io_read_error_from(e) })?
-//@ |                .into_inner() as usize;`
-//@ subst `})?;
-//@ |
-//@ |            let kind = kind.ok_or` => `}).map_err(|e: BytesIoReadError| -> (o: IoReadError) ensures o == IoReadError::IO(e) { io_read_error_from(e) })?;
-//@ |            proof { let n1 = varint_len_from_first(s0[0]); let n2 = varint_len_from_first(s0.skip(n1)[0]); lemma_skip_skip(s0, n1, n2); lemma_skip_skip(s0, n1 + n2, varint_val(s0.skip(n1)) as int); }
-//@ |            let kind = kind.ok_or`
+//@ rename `bytes::IoReadError` => `BytesIoReadError`
+//@ resub `\|e\|\s*match e\s*\{\s*BytesIoReadError::ImmediateFin\s*=>\s*BytesIoReadError::UnexpectedFin,\s*_\s*=>\s*e,\s*\}\)\?` => `|e: BytesIoReadError| -> (o: BytesIoReadError) ensures o == fin_remap(e) { match e { BytesIoReadError::ImmediateFin => BytesIoReadError::UnexpectedFin, _ => e, } }).map_err(|e: BytesIoReadError| -> (o: IoReadError) ensures o == IoReadError::IO(e) { io_read_error_from(e) })?`
+//@ resub `\s*\.await\?` => `.map_err(|e: BytesIoReadError| -> (o: IoReadError) ensures o == IoReadError::IO(e) { io_read_error_from(e) })?`
+//@ resub `\s*\.await\b` => ``
 //@ subst `|InvalidSessionId| IoReadError::Parse(ParseError::InvalidSessionId)` => `|_e: InvalidSessionId| -> (o: IoReadError) ensures o == IoReadError::Parse(ParseError::InvalidSessionId) { IoReadError::Parse(ParseError::InvalidSessionId) }`
 //@ rename `Self::MAX_PARSE_PAYLOAD_ALLOWED` => `4096`
-//@ resub `vec!\[0; (\w+)\]` => `vec_zeroed(\1)`
+//@ resub `vec!\[0; ([^\]]+)\]` => `vec_zeroed(\1)`
 //@ resub `(\w+)\.shrink_to_fit\(\);` => `vec_shrink_to_fit(&mut \1);`
 //@ resub `Cow::Owned\((\w+)\)` => `cow_owned(\1)`
 //@ prologue let ghost s0 = reader.remaining();
-//@ insert_before `Ok(Self::new_webtransport(session_id))` => `proof { lemma_skip_skip(s0, varint_len_from_first(s0[0]), varint_len_from_first(s0.skip(varint_len_from_first(s0[0]))[0])); }`
+//@ insert_before `Ok(Self::new_webtransport(session_id))` => `proof { if varint_complete(s0) && varint_complete(s0.skip(varint_len_from_first(s0[0]))) { lemma_skip_skip(s0, varint_len_from_first(s0[0]), varint_len_from_first(s0.skip(varint_len_from_first(s0[0]))[0])); } }`
+//@ insert_before `let kind = kind.ok_or` => `proof { if varint_complete(s0) && varint_complete(s0.skip(varint_len_from_first(s0[0]))) { let n1 = varint_len_from_first(s0[0]); let n2 = varint_len_from_first(s0.skip(n1)[0]); lemma_skip_skip(s0, n1, n2); if n1 + n2 + varint_val(s0.skip(n1)) <= s0.len() { lemma_skip_skip(s0, n1 + n2, varint_val(s0.skip(n1)) as int); } } }`
 //@ ensures read_async_post(old(reader).remaining(), final(reader).remaining(), r)
 //@ end
 }
